@@ -628,8 +628,13 @@ fn lv_requests(rng: &mut Rng, n: usize, conn: usize) -> Vec<LvReq> {
         let mut bogus = rng.chance(1, 4);
         let q = format!("?nonce={}{}", nonce, if bogus { "&bogus=1" } else { "" });
         let (scen, status, method, target, ctype_json, body): (String, u16, &'static str, String, bool, &'static [u8]) =
-            match rng.below(15) {
+            match rng.below(18) {
                 14 => ("ws".into(), 101, "GET", "/ws".into(), false, b""),
+                // other forms of the request target and the methods that go with them: the
+                // server-wide `OPTIONS *`, an absolute-form target, OPTIONS on a resource
+                15 => ("fw-404".into(), 404, "OPTIONS", "*".into(), false, b""),
+                16 => ("fw-404".into(), 404, "GET", format!("http://localhost/nope/abs{}", i), false, b""),
+                17 => ("fw-405".into(), 405, "OPTIONS", "/ok".into(), false, b""),
                 0 => ("ok".into(), 200, "GET", "/ok".into(), false, b""),
                 1 => ("okhdr".into(), 200, "GET", "/okhdr".into(), false, b""),
                 2 | 3 | 4 => {
